@@ -173,9 +173,10 @@ def run_history(res, case):
 
     log = []
     specs = {"A": case["sys"], "B": case["sysB"]}
-    systems, models = {}, {}
-    for k, sp in specs.items():
-        systems[k], models[k] = zoo.build_system(sp, wrap=Probe(k, log))
+    if case.get("sysB_from"):
+        case = dict(case, sysB_from=None, sysB=case["sys"])   # C18 counts user calls per system: keep B independent
+        specs["B"] = case["sysB"]
+    systems, models = hist.build_systems(case, wrap=lambda tag: Probe(tag, log))
     made = dyn.make_state(models["A"], case["q"], case["p"], 1)
     if made is None:
         res.discarded = True
